@@ -228,6 +228,13 @@ def run(tier, res, replay=None):
             if mode != 'none':
                 spec['dpl'] = float(dp_tight * (
                     rng.uniform(1.05, 1.6) if mode == 'binding' else 8.0))
+            # a third of the histories has three or four time points with
+            # powers that shift unevenly from one to the next
+            if k % 3 == 2:
+                ntp = rng.choice([3, 4])
+                spec['tfac'] = [[round(rng.choice([0.5, 0.8, 1.0, 1.4, 1.9]),
+                                       2) for _ in range(n)]
+                                for _ in range(ntp)]
             pjobs.append((f'param{k}-n{n}-{mode}', spec))
     if not replay:
         na = 12 if tier == 'quick' else 60
